@@ -13,6 +13,15 @@
 //! * `Q` ops drive the `Sender` QUIC uses, built over a real `Endpoint`'s socket state
 //!   (closed flag, mapped-address tables, per-endpoint actor map).
 //!
+//! * variant `b`: the sockets come from the real BUILDER: `Endpoint::builder(..)` +
+//!   `bind_addr_with_opts` per request (C20's request alphabet plus an address), then the real
+//!   `Transports::bind` (hook `Builder::verif_bind_transports`, loopback binds) — built-in
+//!   wildcard sockets, their suppression by user default routes, sorting, default index.
+//!   payload `b|<req;req..|->|<ok4><ok6>|-|<P i ops>` with
+//!   req `<4|6>,<addr hex>,<prefix u8>,<scope>,<flag u|t|f>,<required 0|1>,<bindok 0|1>`;
+//!   `ok4`/`ok6`: does the built-in wildcard bind; output `reject:<dup|prefix>@<i>` when the
+//!   builder refuses request i; built-in sockets have tags 900 (v4) / 901 (v6).
+//!
 //! payload: `<o|r>|<cfg;cfg..|->|<relay states|->|<custom senders|->|<op;op..>`
 //!   cfg    `<4|6>,<addr hex>,<prefix>,<scope>,<default 0|1>,<required 0|1>,<bindok 0|1>`  (tag = index)
 //!   relay  one char per relay sender: `o` open, `f` full (answers Pending), `c` closed (answers Err)
@@ -30,7 +39,7 @@ use std::sync::{Arc, Mutex};
 use std::task::{Context, Poll};
 
 use iroh::endpoint::transports::{CustomSender, FourTuple, Transmit};
-use iroh::endpoint::{Endpoint, presets};
+use iroh::endpoint::{BindOpts, Endpoint, presets};
 use iroh::verif_hooks::transports::{self as hk, SendHarness, SendPoll, ip::IpCfg};
 use iroh_base::{CustomAddr, EndpointId, RelayUrl, SecretKey};
 use vcommon::*;
@@ -218,7 +227,63 @@ impl C19 {
         (val, scope)
     }
 
+    fn gen_builder_case(rng: &mut Rng) -> String {
+        let n = rng.range(0, 5) as usize;
+        let mut reqs: Vec<String> = Vec::new();
+        let mut cfgs: Vec<Cfg> = Vec::new();
+        for _ in 0..n {
+            let v6 = rng.chance(2, 5);
+            let bits: u64 = if v6 { 128 } else { 32 };
+            let addr: u128 = if v6 {
+                match rng.below(4) {
+                    0 => 0,
+                    1 => 0xfe80_0000_0000_0000_0000_0000_0000_0001 + rng.below(3) as u128,
+                    _ => 0x2001_0db8_0000_0000_0000_0000_0000_0000 + ((rng.below(4) as u128) << 64) + rng.below(3) as u128,
+                }
+            } else {
+                match rng.below(4) {
+                    0 => 0,
+                    1 => 0x0a000001 + (rng.below(3) as u128) * 0x100,
+                    _ => 0xc0a80001 + (rng.below(3) as u128) * 0x10000,
+                }
+            };
+            // C20's alphabet: prefix incl. the limits, flag unset / true / false, required
+            let prefix = match rng.below(10) {
+                0..=2 => 0,
+                3 => bits,
+                4 => bits + 1,
+                5 => 255,
+                6 => *rng.pick(&[8u64, 16, 24]),
+                _ => rng.range(0, bits),
+            };
+            let flag = *rng.pick(&['u', 'u', 'f', 'f', 't']);
+            let scope = if v6 { *rng.pick(&[0u32, 0, 2, 3]) } else { 0 };
+            let required = rng.chance(3, 4);
+            let bindok = !rng.chance(1, 10);
+            reqs.push(format!("{},{},{},{},{},{},{}", if v6 { 6 } else { 4 }, hexval(v6, addr), prefix, scope, flag, required as u8, bindok as u8));
+            cfgs.push(Cfg { v6, addr, prefix: prefix.min(bits) as u8, scope, default: false, required, bindok });
+        }
+        let ok = format!("{}{}", !rng.chance(1, 12) as u8, !rng.chance(1, 6) as u8);
+        let mut ops: Vec<String> = Vec::new();
+        for _ in 0..rng.range(1, 8) {
+            let v6 = rng.chance(2, 5);
+            let (dst, scope) = Self::gen_dst(rng, &cfgs, v6);
+            let src = if rng.chance(2, 3) {
+                "-".to_string()
+            } else {
+                let same: Vec<&Cfg> = cfgs.iter().filter(|c| c.v6 == v6).collect();
+                let s = if !same.is_empty() && rng.chance(2, 3) { rng.pick(&same).addr } else { Self::gen_dst(rng, &cfgs, v6).0 };
+                format!("{}:{}", if v6 { 6 } else { 4 }, hexval(v6, s))
+            };
+            ops.push(format!("P i {}:{}:{} {}", if v6 { 6 } else { 4 }, hexval(v6, dst), scope, src));
+        }
+        format!("b|{}|{}|-|{}", if reqs.is_empty() { "-".to_string() } else { reqs.join(";") }, ok, ops.join(";"))
+    }
+
     fn gen_case(&self, rng: &mut Rng) -> String {
+        if rng.chance(1, 3) {
+            return Self::gen_builder_case(rng);
+        }
         let real = rng.chance(1, 4);
         let cfgs = Self::gen_cfgs(rng, real);
         let cfg_s = if cfgs.is_empty() {
@@ -321,6 +386,15 @@ impl Prop for C19 {
         out.push("o|4,0a000001,24,0,0,0,0;4,0a000101,16,0,1,1,1|-|-|P i 4:0a000005:0 -;P i 4:0b000005:0 -".into());
         // mapped addresses: known / unknown / closed
         out.push("o|4,00000000,0,0,0,1,1|of|a:o;e:p|Q 0 R1 0 -;Q 0 C2 0 -;Q 0 C2 0 C4;Q 0 C3 0 -;Q 0 E1 0 -;Q 0 6:fd15070a510b00010000000000000042 0 -;Q 0 6:fd15070a510b00000000000000000042 0 -;Q 0 6:fd15070a510b00030000000000000042 0 -;Q 1 R1 0 -;Q 1 4:7f000001 0 -;Q 0 6:00000000000000000000ffff7f000001 0 -".into());
+        // builder: no request (both wildcards), user default suppresses the wildcard of its family,
+        // user /0 non-default next to the wildcard, optional default that fails to bind, rejections
+        out.push("b|-|11|-|P i 4:0a000005:0 -;P i 6:20010db8000000000000000000000005:0 -".into());
+        out.push("b|4,0a000001,24,0,u,1,1;4,c0a80001,16,0,t,1,1|11|-|P i 4:0a000005:0 -;P i 4:c0a80505:0 -;P i 4:08080808:0 -;P i 6:20010db8000000000000000000000005:0 -".into());
+        out.push("b|4,0a000001,0,0,f,1,1;4,0a000101,24,0,u,1,1|11|-|P i 4:0a000105:0 -;P i 4:08080808:0 -;P i 4:08080808:0 4:0a000001".into());
+        out.push("b|4,0a000001,0,0,u,0,0;6,20010db8000000000000000000000001,64,0,u,1,1|10|-|P i 4:08080808:0 -;P i 6:20010db8000000000000000000000005:0 -;P i 6:20010db9000000000000000000000005:0 -".into());
+        out.push("b|4,0a000001,0,0,u,1,1;4,0a000101,24,0,t,1,1|11|-|P i 4:08080808:0 -".into());
+        out.push("b|4,0a000001,33,0,f,1,1|11|-|P i 4:08080808:0 -".into());
+        out.push("b|4,0a000001,24,0,f,1,1|01|-|P i 4:08080808:0 -".into());
         // real sockets
         out.push("r|4,7f000002,24,0,0,1,1;4,7f000003,16,0,0,1,1;4,00000000,0,0,1,1,1|-|-|P i 4:7f000009:0 -;P i 4:7f000109:0 -;P i 4:7f010109:0 -;P i 4:7f010109:0 4:7f000002;P i 4:7f000009:0 4:7f000009".into());
         while out.len() < n {
@@ -335,7 +409,62 @@ impl Prop for C19 {
         let parts: Vec<&str> = payload.split('|').collect();
         assert_eq!(parts.len(), 5, "payload sections");
         let real = parts[0] == "r";
-        let cfgs: Vec<Cfg> = if parts[1] == "-" {
+        let builder_variant = parts[0] == "b";
+        #[derive(Clone, Copy)]
+        struct BReq {
+            v6: bool,
+            addr: u128,
+            prefix: u8,
+            scope: u32,
+            flag: Option<bool>,
+            required: bool,
+            bindok: bool,
+        }
+        let breqs: Vec<BReq> = if !builder_variant || parts[1] == "-" {
+            Vec::new()
+        } else {
+            parts[1]
+                .split(';')
+                .map(|c| {
+                    let f: Vec<&str> = c.split(',').collect();
+                    BReq {
+                        v6: f[0] == "6",
+                        addr: u128::from_str_radix(f[1], 16).unwrap(),
+                        prefix: f[2].parse().unwrap(),
+                        scope: f[3].parse().unwrap(),
+                        flag: match f[4] {
+                            "t" => Some(true),
+                            "f" => Some(false),
+                            _ => None,
+                        },
+                        required: f[5] == "1",
+                        bindok: f[6] == "1",
+                    }
+                })
+                .collect()
+        };
+        let cfgs: Vec<Cfg> = if builder_variant {
+            // What the documentation of `bind_addr_with_opts` promises, as the oracle reads it:
+            // user sockets as requested (default route = flag, or prefix 0 when unset), plus
+            // the built-in wildcard of a family unless the user asked for a default route of
+            // that family.  Slots 900 / 901 hold the wildcards; unused slots never bind.
+            let absent = Cfg { v6: false, addr: 0, prefix: 0, scope: 0, default: false, required: false, bindok: false };
+            let mut v = vec![absent; 902];
+            let mut user_default = [false, false];
+            for (i, r) in breqs.iter().enumerate() {
+                let default = r.flag.unwrap_or(r.prefix == 0);
+                user_default[r.v6 as usize] |= default;
+                v[i] = Cfg { v6: r.v6, addr: r.addr, prefix: r.prefix, scope: r.scope, default, required: r.required, bindok: r.bindok };
+            }
+            let ok = parts[2].as_bytes();
+            if !user_default[0] {
+                v[900] = Cfg { v6: false, addr: 0, prefix: 0, scope: 0, default: false, required: true, bindok: ok[0] == b'1' };
+            }
+            if !user_default[1] {
+                v[901] = Cfg { v6: true, addr: 0, prefix: 0, scope: 0, default: false, required: false, bindok: ok[1] == b'1' };
+            }
+            v
+        } else if parts[1] == "-" {
             Vec::new()
         } else {
             parts[1]
@@ -429,7 +558,56 @@ impl Prop for C19 {
                 customs.push(Arc::new(StubCustom { idx: i, accepts: b[0] as char, answer: b[2] as char, log: custom_log.clone() }));
             }
         }
-        let bound = SendHarness::bind(&ipcfgs, relay_handles, customs);
+        let bound = if builder_variant {
+            // the real builder, request by request
+            let mut builder = Some(Endpoint::builder(presets::Minimal));
+            let mut rejected = None;
+            for (i, r) in breqs.iter().enumerate() {
+                let addr = match ip_of(r.v6, r.addr) {
+                    IpAddr::V6(a) => SocketAddr::V6(SocketAddrV6::new(a, 20000 + i as u16, 0, r.scope)),
+                    a => SocketAddr::new(a, 20000 + i as u16),
+                };
+                let mut opts = BindOpts::default().set_prefix_len(r.prefix).set_is_required(r.required);
+                if let Some(f) = r.flag {
+                    opts = opts.set_is_default_route(f);
+                }
+                match builder.take().unwrap().bind_addr_with_opts(addr, opts) {
+                    Ok(b) => builder = Some(b),
+                    Err(e) => {
+                        let class = match e {
+                            iroh::endpoint::InvalidSocketAddr::DuplicateDefaultAddr { .. } => "dup",
+                            iroh::endpoint::InvalidSocketAddr::InvalidPrefixLength { .. } => "prefix",
+                            _ => "other",
+                        };
+                        rejected = Some((class, i));
+                        break;
+                    }
+                }
+            }
+            if let Some((class, i)) = rejected {
+                hk::ip::set_loopback_binds(false, &[]);
+                // oracle (C20's statement): rejected only for a second default route of a family
+                // or an invalid prefix length
+                let defaults = |v6: bool| breqs[..=i].iter().filter(|r| r.v6 == v6 && r.flag.unwrap_or(r.prefix == 0)).count();
+                let legit = defaults(false) > 1 || defaults(true) > 1 || breqs[..=i].iter().any(|r| r.prefix as u32 > if r.v6 { 128 } else { 32 });
+                if !legit {
+                    ex.violation("spurious-reject", format!("request {i} rejected ({class})"));
+                }
+                ex.tags.push(format!("builder-reject-{class}"));
+                ex.tags.push("variant-builder".into());
+                ex.out = format!("reject:{class}@{i}");
+                return ex;
+            }
+            let failing: Vec<u16> = breqs.iter().enumerate().filter(|(_, r)| !r.bindok).map(|(i, _)| 20000 + i as u16).collect();
+            hk::ip::set_loopback_binds(true, &failing);
+            let ok = parts[2].as_bytes();
+            hk::ip::set_failing_wildcards(ok[0] != b'1', ok[1] != b'1');
+            let res = builder.as_ref().unwrap().verif_bind_transports(&self.open_ep);
+            hk::ip::set_failing_wildcards(false, false);
+            res
+        } else {
+            SendHarness::bind(&ipcfgs, relay_handles, customs)
+        };
         hk::ip::set_loopback_binds(false, &[]);
         let mut h = match bound {
             Ok(h) => h,
@@ -459,6 +637,9 @@ impl Prop for C19 {
         let tag_of = |cfg: &IpCfg| -> usize {
             if real {
                 cfgs.iter().position(|c| c.bindok && ip_of(c.v6, c.addr) == cfg.addr && c.prefix == cfg.prefix_len && c.default == cfg.is_default && c.scope == cfg.scope_id).expect("socket of no config")
+            } else if cfg.port == 0 {
+                // the builder's built-in wildcard sockets
+                if cfg.addr.is_ipv4() { 900 } else { 901 }
             } else {
                 (cfg.port - 20000) as usize
             }
@@ -470,6 +651,8 @@ impl Prop for C19 {
             // oracle: all successfully bound sockets of the family, prefix descending, stable, first default
             let want: Vec<usize> = {
                 let mut v: Vec<usize> = cfgs.iter().enumerate().filter(|(_, c)| c.bindok && c.v6 == (name == "L6")).map(|(i, _)| i).collect();
+                // the built-in wildcards are configured before every user socket
+                v.sort_by_key(|i| *i < 900);
                 v.sort_by_key(|i| std::cmp::Reverse(cfgs[*i].prefix)); // std's stable sort as reference
                 v
             };
@@ -737,7 +920,12 @@ impl Prop for C19 {
         }
         ex.out = outs.join(";");
         ex.nontrivial = nontrivial;
-        ex.tags.push(if real { "variant-real-sockets".into() } else { "variant-loopback-override".into() });
+        ex.tags.push(if builder_variant { "variant-builder".into() } else if real { "variant-real-sockets".into() } else { "variant-loopback-override".into() });
+        if builder_variant {
+            let t4 = order.contains(&900);
+            let t6 = order.contains(&901);
+            ex.tags.push(format!("builder-wildcards-{}{}", t4 as u8, t6 as u8));
+        }
         ex
     }
 }
